@@ -179,6 +179,24 @@ func c17BaseDoc(seed uint64, workDir string) *document.Document {
 
 // c17Chain returns the template and the objects it was resolved against, nearest first; ok is false when two objects of the chain
 // carry the same name (a fresh engine cannot hold both).
+// c17Name: the six names a case uses. Names are opaque strings: two templates are the same template only when their
+// names are equal, whatever the names look like (dots, an extension, a path, letter case, blanks, other scripts).
+func c17Name(scheme, i int) string {
+	switch scheme {
+	case 1:
+		return []string{"letter", "letter.en", "letter.de", "letter.en.v2", "layout.home", "layout"}[i]
+	case 2:
+		return []string{"report.docx", "report.tmpl", "report", "report.", ".report", "report.docx.bak"}[i]
+	case 3:
+		return []string{"tpl/a", "tpl/b", "tpl\\a", "a", "./a", "tpl/../a"}[i]
+	case 4:
+		return []string{"Invoice", "invoice", "INVOICE", "invoice ", " invoice", "in voice"}[i]
+	case 5:
+		return []string{"模板", "模板1", "模板 1", "t-é", "t-e\u0301", "t_1"}[i]
+	}
+	return fmt.Sprintf("t%d", i)
+}
+
 func c17Chain(l *c17Loaded) ([]*c17Loaded, bool) {
 	var chain []*c17Loaded
 	seen := map[string]bool{}
@@ -285,11 +303,13 @@ func c17Sequential(c *core.Ctx, r *rng.R) *core.Result {
 		}
 	}
 	n := r.Range(3, tierN(c.Tier, 14, 30))
+	nameScheme := r.Intn(6)
+	res.Count(fmt.Sprintf("name_scheme_%d", nameScheme), 1)
 	for i := 0; i < n && len(res.Findings) == 0; i++ {
 		switch k := r.Intn(100); {
 		case k < 50: // load a text template (root, child of an existing one, sibling)
 			version++
-			def := tplDef{name: fmt.Sprintf("t%d", r.Intn(6)), version: version}
+			def := tplDef{name: c17Name(nameScheme, r.Intn(6)), version: version}
 			if old := loaded[def.name]; old != nil {
 				// replacing a template that others extend: the children were resolved against the old object and must keep rendering what they rendered
 				for _, l := range loaded {
